@@ -22,7 +22,7 @@ REQUIRED_COUNTERS = ["optimal.cpl", "optimal.cp", "optimal.gp", "family.quad", "
 
 def plan(tier):
     if tier == "thorough":
-        return [{"variant": "plain", "workers": 16, "cases": 1500}]
+        return [{"variant": "plain", "workers": 16, "cases": 5000}]
     return [{"variant": "plain", "workers": 16, "cases": 80}]
 
 
